@@ -1,6 +1,7 @@
 (* C05 — Compressed parser tables decode to the same actions. *)
 From Coq Require Import List ZArith Bool.
-From TM Require Import Gram.PTables Gram.Optimize Gram.OptimizeSpec Gram.OptimizeSpec_proofs.
+From TM Require Import Gram.PTables Gram.Optimize Gram.OptimizeSpec Gram.OptimizeSpec_proofs
+  Gram.OptimizeWf Gram.OptimizePack_proofs Gram.OptimizeGen_proofs Gram.OptimizeSem_proofs.
 Import ListNotations.
 Local Open Scope Z_scope.
 
@@ -45,5 +46,118 @@ Example C05_example :
   check_enc ex_enc (mkDispEnc [-1] [2] [-3; 0; -5; -1] [0; -2; 0; -2] (-2) [-1; -1; 2] [0; 1; 0]) 2 = false.
 Proof. vm_compute. repeat split; reflexivity. Qed.
 
+(* ================= the generator, once and for all =================
+   wf_enc (Gram/OptimizeWf.v) is the boolean well-formedness of a DefaultEnc as lalr.Compile produces it:
+   Lalr rows terminated by (-1,-2) inside the array with distinct in-range terminals and actions that are
+   error / shift-with-transition / rule index; FromTo segments of nonterminals on pair boundaries inside
+   the array with strictly increasing in-range source states; every nonterminal has a state without a
+   transition on it or two states with different targets (see C05_fallback_condition_needed). *)
+
+(* The allocator (pack / allocator.place: hash-keyed dedupe verified against the stored line, first-fit
+   scan over taken/usedBase, end-of-table fallback that respects usedBase): every input line is stored at
+   its index and can be read back exactly through (table, check) — a pair of the line is found in its
+   cell, and a position that is NOT in the line is never answered from the table. *)
+Theorem C05_pack_reads_every_line_back :
+  forall lines indices table check,
+  Forall wf_line lines -> pack lines = (indices, table, check) ->
+  length indices = length lines /\ zlength check = zlength table /\
+  forall i L, nth_error lines i = Some L ->
+    0 <= nth i indices 0 + first_pos L /\
+    forall p, 0 <= p ->
+      (forall v, In (p, v) L ->
+         0 <= nth i indices 0 + p < zlength table /\
+         zn check (nth i indices 0 + p) = p /\ zn table (nth i indices 0 + p) = v) /\
+      ((forall v, ~ In (p, v) L) -> 0 <= nth i indices 0 + p < zlength table ->
+         zn check (nth i indices 0 + p) <> p).
+Proof. exact pack_correct. Qed.
+
+(* The model of lalr.Optimize passes the exhaustive validator for EVERY well-formed table set ... *)
+Theorem C05_optimize_passes_validator :
+  forall t terms rules, wf_enc t terms rules = true ->
+  check_enc t (optimize t terms rules false) terms = true.
+Proof. exact optimize_passes_check_enc. Qed.
+
+(* ... hence every state/terminal cell and every existing goto of the compressed tables decodes as in the
+   uncompressed tables, for all well-formed tables (no per-table check involved). *)
+Theorem C05_optimize_decodes_identically :
+  forall t terms rules, wf_enc t terms rules = true ->
+  (forall s a, 0 <= s < zlength (d_action t) -> 0 <= a < terms ->
+     action_opt (optimize t terms rules false) s a = action_default t s a) /\
+  (forall s x q, 0 <= s < zlength (d_action t) -> terms <= x < zlength (d_goto t) - 1 ->
+     goto_state t s x = q -> 0 <= q -> goto_opt (optimize t terms rules false) terms s x = q).
+Proof. exact optimize_decodes_identically. Qed.
+
+(* gotos agree with and without defaultReduce *)
+Theorem C05_optimize_gotos_agree :
+  forall t terms rules dr, wf_enc t terms rules = true ->
+  forall s x q, 0 <= s < zlength (d_action t) -> terms <= x < zlength (d_goto t) - 1 ->
+  goto_state t s x = q -> 0 <= q -> goto_opt (optimize t terms rules dr) terms s x = q.
+Proof. exact optimize_gotos_agree. Qed.
+
+(* defaultReduce: the model of lalr.Optimize passes the defaultReduce validator for EVERY well-formed table
+   set ... *)
+Theorem C05_optimize_passes_validator_default_reduce :
+  forall t terms rules, wf_enc t terms rules = true ->
+  check_enc_dr t (optimize t terms rules true) terms = true.
+Proof. exact optimize_passes_check_enc_dr. Qed.
+
+(* ... hence, for all well-formed tables: shifts and reductions are unchanged, an error never becomes a shift,
+   an explicit (nonassoc) error entry stays an error, an implicit error can only become a most frequent
+   reduction of its state. *)
+Theorem C05_optimize_default_reduce_only_rewrites_plain_errors :
+  forall t terms rules, wf_enc t terms rules = true ->
+  forall s a, 0 <= s < zlength (d_action t) -> 0 <= a < terms ->
+  match action_default t s a with
+  | Shift q => action_opt (optimize t terms rules true) s a = Shift q
+  | Reduce r => action_opt (optimize t terms rules true) s a = Reduce r
+  | Deep r => action_opt (optimize t terms rules true) s a = Deep r
+  | Err =>
+      (forall q, action_opt (optimize t terms rules true) s a <> Shift q) /\
+      (zn (d_action t) s < -2 ->
+       (exists v, lalr_find (S (length (d_lalr t))) (d_lalr t) (- zn (d_action t) s - 3) a = Some v) ->
+       action_opt (optimize t terms rules true) s a = Err) /\
+      (forall r, action_opt (optimize t terms rules true) s a = Reduce r ->
+                 is_most_frequent r (row_reductions t s) = true)
+  end.
+Proof. exact optimize_default_reduce_ok. Qed.
+
+(* non-vacuity: tables with a Lalr row (state 1: reduce on eoi, shift on 'a') are well-formed *)
+Definition ex_enc_row : default_enc :=
+  mkDefaultEnc [-1; -3; 0; -2] [0; 0; 1; -1; -1; -2] [0; 0; 4; 6] [0; 1; 1; 2; 0; 3].
+
+(* the same with a third terminal 'b' that state 1 does not mention: a plain error, which defaultReduce
+   turns into the reduction of rule 0 *)
+Definition ex_enc_row3 : default_enc :=
+  mkDefaultEnc [-1; -3; 0; -2] [0; 0; 1; -1; -1; -2] [0; 0; 4; 4; 6] [0; 1; 1; 2; 0; 3].
+
+Example C05_wf_examples :
+  wf_enc ex_enc 2 1 = true /\ wf_enc ex_enc_row 2 1 = true /\ wf_enc ex_enc_row3 3 1 = true /\
+  action_default ex_enc_row3 1 2 = Err /\
+  action_opt (optimize ex_enc_row3 3 1 false) 1 2 = Err /\
+  action_opt (optimize ex_enc_row3 3 1 true) 1 2 = Reduce 0.
+Proof. vm_compute. repeat split; reflexivity. Qed.
+
+(* The last clause of wf_enc (seg_fallback_ok) cannot be dropped: "Goto[nt] = -syms is guaranteed to fall
+   back to the default" (optimize.go) is false when there are more states than symbols.  Tables that are well-formed in every
+   other respect (5 states, 3 symbols; nonterminal 2 has the same target from every state, so it gets no
+   line; the line of nonterminal 1 starts at state 3 and is placed at base -3 = -syms) make the optimized
+   gotoState(3, nonterminal 2) read a cell of nonterminal 1.  lalr.Optimize is exported and accepts such
+   tables; no table set produced by lalr.Compile in the harness runs has a nonterminal with the same
+   target from every state (wf_enc is evaluated on every sampled table set). *)
+Definition ex_enc_nogap : default_enc :=
+  mkDefaultEnc [-2; -2; -2; -2; -2] [] [0; 0; 4; 14] [3; 1; 4; 2; 0; 0; 1; 0; 2; 0; 3; 0; 4; 0].
+
+Example C05_fallback_condition_needed :
+  wf_enc_nogap ex_enc_nogap 1 1 = true /\
+  goto_state ex_enc_nogap 3 2 = 0 /\ goto_opt (optimize ex_enc_nogap 1 1 false) 1 3 2 = 1 /\
+  check_enc ex_enc_nogap (optimize ex_enc_nogap 1 1 false) 1 = false.
+Proof. vm_compute. repeat split; reflexivity. Qed.
+
 Print Assumptions C05_validated_tables_decode_identically.
 Print Assumptions C05_default_reduce_only_rewrites_plain_errors.
+Print Assumptions C05_pack_reads_every_line_back.
+Print Assumptions C05_optimize_passes_validator.
+Print Assumptions C05_optimize_decodes_identically.
+Print Assumptions C05_optimize_gotos_agree.
+Print Assumptions C05_optimize_passes_validator_default_reduce.
+Print Assumptions C05_optimize_default_reduce_only_rewrites_plain_errors.
